@@ -2054,6 +2054,13 @@ M('C03', 'ecdh-two-blocks-second-inverted', FL, ECDH_ARMS, ECDH_SPLIT % 'native'
 M('C13', 'ecdh-two-blocks-second-draws-again', FL, ECDH_ARMS, (ECDH_SPLIT % 'not native').replace("            x = vpub.public_bytes(", "            v = x25519.X25519PrivateKey.generate()\n            x = vpub.public_bytes("), 'C13.2')
 M('C03', 'ecdh-two-blocks-second-on-other-test', FL, ECDH_ARMS, ECDH_SPLIT % 'km.oid.key_size > 256', 'C03.5')
 
+# ---- compression arms looked up in a table of (compress, decompress) callables built by a private method (held-out twin C20-ref14)
+COMP_ARMS = '    def compress(self, data):\n        if self is CompressionAlgorithm.Uncompressed:\n            return data\n\n        if self is CompressionAlgorithm.ZIP:\n            return zlib.compress(data)[2:-4]\n\n        if self is CompressionAlgorithm.ZLIB:\n            return zlib.compress(data)\n\n        if self is CompressionAlgorithm.BZ2:\n            return bz2.compress(data)\n\n        raise NotImplementedError(self)\n\n    def decompress(self, data):\n        if self is CompressionAlgorithm.Uncompressed:\n            return data\n\n        if self is CompressionAlgorithm.ZIP:\n            return zlib.decompress(data, -15)\n\n        if self is CompressionAlgorithm.ZLIB:\n            return zlib.decompress(data)\n\n        if self is CompressionAlgorithm.BZ2:\n            return bz2.decompress(data)\n\n        raise NotImplementedError(self)\n\n\n'
+T('C03', 'twin-compress-codec-table', CO, COMP_ARMS, '    @staticmethod\n    def _deflate_raw(data):\n        return zlib.compress(data)[2:-4]\n\n    @staticmethod\n    def _inflate_raw(data):\n        return zlib.decompress(data, -15)\n\n    def _codec(self):\n        codecs = {\n            CompressionAlgorithm.Uncompressed: None,\n            CompressionAlgorithm.ZIP: (self._deflate_raw, self._inflate_raw),\n            CompressionAlgorithm.ZLIB: (zlib.compress, zlib.decompress),\n            CompressionAlgorithm.BZ2: (bz2.compress, bz2.decompress),\n        }\n\n        if self not in codecs:  # pragma: no cover\n            raise NotImplementedError(self)\n\n        return codecs[self]\n\n    def compress(self, data):\n        codec = self._codec()\n        if codec is None:\n            return data\n\n        deflate, _ = codec\n        return deflate(data)\n\n    def decompress(self, data):\n        codec = self._codec()\n        if codec is None:\n            return data\n\n        _, inflate = codec\n        return inflate(data)\n\n\n')
+M('C03', 'codec-table-zip-not-raw-on-compress', CO, COMP_ARMS, '    @staticmethod\n    def _deflate_raw(data):\n        return zlib.compress(data)[2:-4]\n\n    @staticmethod\n    def _inflate_raw(data):\n        return zlib.decompress(data, -15)\n\n    def _codec(self):\n        codecs = {\n            CompressionAlgorithm.Uncompressed: None,\n            CompressionAlgorithm.ZIP: (zlib.compress, self._inflate_raw),\n            CompressionAlgorithm.ZLIB: (zlib.compress, zlib.decompress),\n            CompressionAlgorithm.BZ2: (bz2.compress, bz2.decompress),\n        }\n\n        if self not in codecs:  # pragma: no cover\n            raise NotImplementedError(self)\n\n        return codecs[self]\n\n    def compress(self, data):\n        codec = self._codec()\n        if codec is None:\n            return data\n\n        deflate, _ = codec\n        return deflate(data)\n\n    def decompress(self, data):\n        codec = self._codec()\n        if codec is None:\n            return data\n\n        _, inflate = codec\n        return inflate(data)\n\n\n', 'C03.6')
+M('C03', 'codec-table-bz2-pair-swapped', CO, COMP_ARMS, '    @staticmethod\n    def _deflate_raw(data):\n        return zlib.compress(data)[2:-4]\n\n    @staticmethod\n    def _inflate_raw(data):\n        return zlib.decompress(data, -15)\n\n    def _codec(self):\n        codecs = {\n            CompressionAlgorithm.Uncompressed: None,\n            CompressionAlgorithm.ZIP: (self._deflate_raw, self._inflate_raw),\n            CompressionAlgorithm.ZLIB: (zlib.compress, zlib.decompress),\n            CompressionAlgorithm.BZ2: (bz2.decompress, bz2.compress),\n        }\n\n        if self not in codecs:  # pragma: no cover\n            raise NotImplementedError(self)\n\n        return codecs[self]\n\n    def compress(self, data):\n        codec = self._codec()\n        if codec is None:\n            return data\n\n        deflate, _ = codec\n        return deflate(data)\n\n    def decompress(self, data):\n        codec = self._codec()\n        if codec is None:\n            return data\n\n        _, inflate = codec\n        return inflate(data)\n\n\n', 'C03.6')
+M('C03', 'codec-table-inflate-helper-expects-zlib-header', CO, COMP_ARMS, '    @staticmethod\n    def _deflate_raw(data):\n        return zlib.compress(data)[2:-4]\n\n    @staticmethod\n    def _inflate_raw(data):\n        return zlib.decompress(data)\n\n    def _codec(self):\n        codecs = {\n            CompressionAlgorithm.Uncompressed: None,\n            CompressionAlgorithm.ZIP: (self._deflate_raw, self._inflate_raw),\n            CompressionAlgorithm.ZLIB: (zlib.compress, zlib.decompress),\n            CompressionAlgorithm.BZ2: (bz2.compress, bz2.decompress),\n        }\n\n        if self not in codecs:  # pragma: no cover\n            raise NotImplementedError(self)\n\n        return codecs[self]\n\n    def compress(self, data):\n        codec = self._codec()\n        if codec is None:\n            return data\n\n        deflate, _ = codec\n        return deflate(data)\n\n    def decompress(self, data):\n        codec = self._codec()\n        if codec is None:\n            return data\n\n        _, inflate = codec\n        return inflate(data)\n\n\n', 'C03.6')
+
 # =============================================================================================== C02
 M('C02', 'hash2-last-two', PGP, "        sig._signature.hash2 = bytearray(h2.digest()[:2])", "        sig._signature.hash2 = bytearray(h2.digest()[-2:])", 'C02.2')
 M('C02', 'signer-hashdata-none', PGP, "        _sig = self._key.sign(sigdata, getattr(hashes, sig.hash_algorithm.name)())", "        _sig = self._key.sign(sig.hashdata(None), getattr(hashes, sig.hash_algorithm.name)())", 'C02.2')
